@@ -37,7 +37,6 @@ from __future__ import annotations
 import hashlib
 import itertools
 import os
-import shutil
 import traceback
 import warnings
 
@@ -480,6 +479,18 @@ def oracle_read(acc, fam, basename, res, ientries, version, hash_name, rpd, orde
                 vio("read:PackIndex%d.get_pack_checksum:differs-from-pack-trailer%s" % (version, hc), "")
         except Exception as e:
             vio("read:PackIndex%d:raises-%s%s" % (version, _exc_name(e), hc), "%s in %s: %s" % (_exc_name(e), _exc_site(e), str(e)[:120]))
+        # -- the in-memory index built from the data (first index of a pack only)
+        if orders:
+            try:
+                mi = P.MemoryPackIndex.for_pack(p.data)
+                bad = len(mi) != len(ref_sorted) or mi.get_pack_checksum() != p.data.get_stored_checksum()
+                for n, o, _ in ref_sorted:
+                    if mi.object_offset(n) != o or mi.object_offset(n.hex().encode()) != o or mi.object_sha1(o) != n:
+                        bad = True
+                if bad or sorted(tuple(e) for e in mi.iterentries()) != ref_sorted:
+                    vio("read:MemoryPackIndex.for_pack:entries-differ%s" % hc, "%r" % _fmt_entries(list(mi.iterentries())))
+            except Exception as e:
+                vio("read:MemoryPackIndex.for_pack:raises-%s%s" % (_exc_name(e), hc), "%s in %s: %s" % (_exc_name(e), _exc_site(e), str(e)[:120]))
         # -- integrity check
         if check:
             try:
@@ -652,6 +663,14 @@ def _idx_legal(version, hash_name):
     return hash_name == "sha1" or version == 2
 
 
+def _deltify(P, objs, window, fmt):
+    """deltify_pack_objects, telling it the pack's object format where the API has a way to."""
+    import inspect
+
+    kw = {"object_format": fmt} if "object_format" in inspect.signature(P.deltify_pack_objects).parameters else {}
+    return P.deltify_pack_objects(iter(objs), window_size=window, **kw)
+
+
 def case_wseq(acc, pool_name, idxs, hash_name, mode, opt, shared=None):
     """One W.seq case.  mode/opt:
        wp    (deltify, window)          write_pack, level -1, default index
@@ -689,8 +708,10 @@ def case_wseq(acc, pool_name, idxs, hash_name, mode, opt, shared=None):
                 ordered = not deltify
             elif mode == "wpd":
                 window, level = opt
-                recs = list(P.deltify_pack_objects(iter([(o, None) for o in objs]), window_size=window))
-                pos = {o.sha().digest(): i for i, o in enumerate(objs)}
+                recs = list(_deltify(P, [(o, None) for o in objs], window, fmt))
+                pos = {}
+                for i, o in enumerate(objs):  # records carry the SHA-1 or the pack-format name
+                    pos[o.sha().digest()] = pos[o.sha(fmt).digest()] = i
                 recs.sort(key=lambda u: pos[u.sha()])
                 packpath = os.path.join(d, "p.pack")
                 with open(packpath, "wb") as f:
@@ -1336,7 +1357,7 @@ def case_rpack(acc, parents, order, kinds, hash_name, level, shared=None):
     try:
         pinfo, res = oracle_pack(acc, "R", data, [objs[i] for i in order], hash_name, rpd, writer="reference")
         base0 = _install(d, "p", data, b"")
-        if _claim(shared, "P-" + hash_name + "-" + pinfo.trailer.hex()):
+        if _claim(shared, "RP-" + hash_name + "-" + pinfo.trailer.hex()):  # (own namespace: counts stay seed-independent)
             st = _gitstate(hash_name)
             p = git(["index-pack", "--strict", "-o", os.path.join(d, "g.idx"), base0 + ".pack"], cwd=st["full"], check=False)
             acc.count("git_index_pack")
@@ -1568,7 +1589,73 @@ def subsets(n, k):
 
 # --------------------------------------------------------------------------- task plumbing
 
-_CASES = {}
+CASE_CPU_LIMIT = 60
+
+
+class _CpuLimit(BaseException):
+    def __init__(self, site):
+        self.site = site
+
+
+def _on_cpu_limit(signum, frame):
+    site = "?"
+    f = frame
+    while f is not None:
+        if "/dulwich/" in f.f_code.co_filename:
+            site = f.f_code.co_name
+            break
+        f = f.f_back
+    raise _CpuLimit(site)
+
+
+def _guarded(fn):
+    """fn(acc, *args, shared=) with the per-case CPU watchdog and the safety net for exceptions that
+    come out of dulwich where the case function did not expect one."""
+    import signal
+
+    def run1(acc, *args, shared=None):
+        rargs = [list(a) if isinstance(a, tuple) else a for a in args]
+        signal.signal(signal.SIGPROF, _on_cpu_limit)
+        before = sum(v[0] for v in acc.viol.values())
+        try:
+            _run1(acc, rargs, args, shared)
+        finally:
+            if sum(v[0] for v in acc.viol.values()) != before:
+                acc.count("violating_cases:%s:%s" % (fn.__name__[5:], "sha256" if "sha256" in args else "sha1"))
+
+    def _run1(acc, rargs, args, shared):
+        try:
+            # watchdog on the CPU time of this process (not wall time: independent of machine load;
+            # the slowest legitimate case needs about 1 s of CPU)
+            signal.setitimer(signal.ITIMER_PROF, CASE_CPU_LIMIT)
+            try:
+                fn(acc, *args, shared=shared)
+            finally:
+                signal.setitimer(signal.ITIMER_PROF, 0)
+        except _CpuLimit as e:
+            acc.violation("hang:%s:no-result-within-%ds-cpu:%s" % (fn.__name__, CASE_CPU_LIMIT, e.site),
+                          "%r: still running in %s after %d s of CPU" % (args, e.site, CASE_CPU_LIMIT), rp(fn, *rargs))
+        except HarnessError:
+            raise
+        except Exception as e:
+            # still dulwich's behaviour (a broken round trip), not a harness error; anything raised by
+            # the harness or the reference model itself is re-raised
+            tb = traceback.extract_tb(e.__traceback__)
+            if not tb or "/dulwich/" not in tb[-1].filename:
+                raise
+            acc.violation("unexpected:%s:raises-%s:%s" % (fn.__name__, _exc_name(e), _exc_site(e)),
+                          "%r: %s" % (args, str(e)[:200]), rp(fn, *rargs))
+
+    return run1
+
+
+class _GuardedCases:
+    """Module look-alike for replay_generic: case functions wrapped like in work()."""
+
+    def __getattr__(self, name):
+        if not name.startswith("case_"):
+            raise AttributeError(name)
+        return _guarded(globals()[name])
 
 
 def work(task):
@@ -1577,21 +1664,9 @@ def work(task):
     signal.signal(signal.SIGTERM, signal.SIG_DFL)
     kind, items, shared = task
     acc = Acc()
-    fn = globals()["case_" + kind]
+    fn = _guarded(globals()["case_" + kind])
     for args in items:
-        try:
-            fn(acc, *args, shared=shared)
-        except HarnessError:
-            raise
-        except Exception as e:
-            # an exception that comes out of dulwich at a place where the case function did not expect
-            # one is still dulwich's behaviour (a violation of the round trip), not a harness error;
-            # anything raised by the harness or the reference model itself is
-            tb = traceback.extract_tb(e.__traceback__)
-            if not tb or "/dulwich/" not in tb[-1].filename:
-                raise
-            acc.violation("unexpected:%s:raises-%s:%s" % (fn.__name__, _exc_name(e), _exc_site(e)),
-                          "%r: %s" % (args, str(e)[:200]), rp(fn, *[list(a) if isinstance(a, tuple) else a for a in args]))
+        fn(acc, *args, shared=shared)
     return acc
 
 
@@ -1614,35 +1689,35 @@ def _bind_rust():
 HASHES = ("sha1", "sha256")
 
 REQUIRED_CLASSES = [
-    # (what must have been observed, why)
-    ("shape:entry:ofs-distance=127", "OFS distance 1-byte maximum"),
-    ("shape:entry:ofs-distance=128", "OFS distance 2-byte minimum"),
-    ("shape:entry:ofs-distance=16511", "OFS distance 2-byte maximum"),
-    ("shape:entry:ofs-distance=16512", "OFS distance 3-byte minimum"),
-    ("shape:entry:ofs-distance=2113663", "OFS distance 3-byte maximum"),
-    ("shape:entry:ofs-distance=2113664", "OFS distance 4-byte minimum"),
-    ("W.slice:deflate-length-minus-k*64KiB=-1", "deflate stream one byte short of the read slice"),
-    ("W.slice:deflate-length-minus-k*64KiB=+0", "deflate stream ends exactly at the read slice"),
-    ("W.slice:deflate-length-minus-k*64KiB=+1", "deflate stream one byte over the read slice"),
-    ("shape:entry:type=3:header-bytes=1", "size < 16"),
-    ("shape:entry:type=3:header-bytes=2", "16 <= size < 2048"),
-    ("shape:entry:type=3:header-bytes=3", "2048 <= size < 2^18"),
-    ("shape:entry:type=3:header-bytes=4", "size >= 2^18"),
-    ("shape:delta:copy-size=0xffff", "copy op of 65535 bytes"),
-    ("shape:delta:copy-size=0x10000", "copy op of 65536 bytes"),
-    ("shape:W.seq:kinds=full+ofs", "dulwich wrote OFS deltas"),
-    ("shape:W.seq:kinds=full+ref", "dulwich wrote REF deltas (delta before its base)"),
-    ("shape:W.reuse:max-depth=1", "dulwich reused a delta"),
-    ("shape:G.chain:max-depth=49", "git chain of depth ~50"),
-    ("shape:idx-v2:64-bit-table", "git idx with 64-bit entries read by dulwich"),
-    ("I:write-v2:64-bit-table-entries=2", "dulwich idx with two 64-bit entries"),
-    ("G.thin:sha1:external-bases=1", "git thin pack with an external base"),
-    ("W.reuse:sha1:git-ref:thin-pack-external-bases=2", "dulwich thin pack from reused deltas"),
-    ("git:index-pack--strict:accepted", "C git judged dulwich packs"),
-    ("git:verify-pack:accepted-idx-v1", "C git read dulwich idx v1"),
-    ("git:verify-pack:accepted-idx-v2", "C git read dulwich idx v2"),
-    ("git:cat-file:identical", "C git served contents through dulwich's idx"),
-    ("git:show-index:agrees-v2", "C git listed dulwich's synthetic idx"),
+    # (class that must have been observed, why, case kind that produces it)
+    ("shape:entry:ofs-distance=127", "OFS distance 1-byte maximum", "wofs"),
+    ("shape:entry:ofs-distance=128", "OFS distance 2-byte minimum", "wofs"),
+    ("shape:entry:ofs-distance=16511", "OFS distance 2-byte maximum", "wofs"),
+    ("shape:entry:ofs-distance=16512", "OFS distance 3-byte minimum", "wofs"),
+    ("shape:entry:ofs-distance=2113663", "OFS distance 3-byte maximum", "wofs"),
+    ("shape:entry:ofs-distance=2113664", "OFS distance 4-byte minimum", "wofs"),
+    ("W.slice:deflate-length-minus-k*64KiB=-1", "deflate stream one byte short of the read slice", "wslice"),
+    ("W.slice:deflate-length-minus-k*64KiB=+0", "deflate stream ends exactly at the read slice", "wslice"),
+    ("W.slice:deflate-length-minus-k*64KiB=+1", "deflate stream one byte over the read slice", "wslice"),
+    ("shape:entry:type=3:header-bytes=1", "size < 16", "wseq"),
+    ("shape:entry:type=3:header-bytes=2", "16 <= size < 2048", "wseq"),
+    ("shape:entry:type=3:header-bytes=3", "2048 <= size < 2^18", "wseq"),
+    ("shape:entry:type=3:header-bytes=4", "size >= 2^18", "wseq"),
+    ("shape:delta:copy-size=0xffff", "copy op of 65535 bytes", "wseq"),
+    ("shape:delta:copy-size=0x10000", "copy op of 65536 bytes", "gsub"),
+    ("shape:W.seq:kinds=full+ofs", "dulwich wrote OFS deltas", "wseq"),
+    ("shape:W.seq:kinds=full+ref", "dulwich wrote REF deltas (delta before its base)", "wseq"),
+    ("shape:W.reuse:max-depth=1", "dulwich reused a delta", "wreuse"),
+    ("shape:G.chain:max-depth=49", "git chain of depth ~50", "gchain"),
+    ("shape:idx-v2:64-bit-table", "git idx with 64-bit entries read by dulwich", "gsub"),
+    ("I:write-v2:64-bit-table-entries=2", "dulwich idx with two 64-bit entries", "idx"),
+    ("G.thin:sha1:external-bases=1", "git thin pack with an external base", "gthin"),
+    ("W.reuse:sha1:git-ref:thin-pack-external-bases=2", "dulwich thin pack from reused deltas", "wreuse"),
+    ("git:index-pack--strict:accepted", "C git judged dulwich packs", "wseq"),
+    ("git:verify-pack:accepted-idx-v1", "C git read dulwich idx v1", "wseq"),
+    ("git:verify-pack:accepted-idx-v2", "C git read dulwich idx v2", "wseq"),
+    ("git:cat-file:identical", "C git served contents through dulwich's idx", "wseq"),
+    ("git:show-index:agrees-v2", "C git listed dulwich's synthetic idx", "idx"),
 ]
 
 
@@ -1677,6 +1752,12 @@ def run(ctx):
             for hash_name in HASHES:
                 for mode, opt in (lean if (pn == "A" and len(idxs) == 4) else opts):
                     items.append((pn, idxs, hash_name, mode, opt))
+    if not q:  # every deflate level -1..9 (write_pack_objects, both deltify settings) for <=2 objects of pool A
+        for idxs in ordered_selections(len(pool("A", "sha1")), 2):
+            for hash_name in HASHES:
+                for deltify in (False, True):
+                    for level in range(2, 9):
+                        items.append(("A", idxs, hash_name, "wpo", (deltify, level)))
     counts["W.seq"] = add("wseq", items, J * 4)
     # ---- W.ofs / W.slice
     counts["W.ofs"] = add("wofs", [(n,) for n in WOFS_FILLERS], 30)
@@ -1721,13 +1802,19 @@ def run(ctx):
     pmap_acc(work, tasks, ctx.acc, jobs=ctx.jobs)
 
     acc = ctx.acc
-    required = REQUIRED_CLASSES + ([] if q else [("shape:W.reuse:max-depth=2", "dulwich reused a delta of a delta"),
-                                                 ("I:write-v2:64-bit-table-entries=3", "dulwich idx with three 64-bit entries"),
-                                                 ("shape:R:max-depth=3", "reference-built chain of depth 3")])
-    missing = [(c, why) for c, why in required if c not in acc.classes]
-    if missing:
-        raise HarnessError("vacuity guard: classes never observed: %r" % (missing,))
     n = acc.n
+    required = REQUIRED_CLASSES + ([] if q else [("shape:W.reuse:max-depth=2", "dulwich reused a delta of a delta", "wreuse"),
+                                                 ("I:write-v2:64-bit-table-entries=3", "dulwich idx with three 64-bit entries", "idx"),
+                                                 ("shape:R:max-depth=3", "reference-built chain of depth 3", "rpack")])
+    # vacuity guard: a shape that never occurred is a harness error -- unless SHA-1 cases of the kind
+    # that produces it ended in violations (then the violations are the explanation, and they are
+    # what must be reported)
+    missing = [(c, why, kind) for c, why, kind in required if c not in acc.classes]
+    unexplained = [m for m in missing if not n.get("violating_cases:%s:sha1" % m[2])]
+    if unexplained:
+        raise HarnessError("vacuity guard: classes never observed: %r" % (unexplained,))
+    if missing:
+        acc.note("vacuity:classes-not-observed-in-a-violating-family", [m[0] for m in missing])
     total = sum(v for k, v in n.items() if k.endswith("_cases"))
     for fam, cnt in counts.items():
         if n.get(fam + "_cases") != cnt:
@@ -1749,7 +1836,7 @@ def run(ctx):
             "E4 bounded-exhaustive.  W.seq: every ordered selection of <=k objects from pools A (10 objects: every type, empty "
             "blob, 15/16 bytes, same bytes as blob and commit, delta pairs; k=%d), B (blobs of 15/16/2047/2048/2^18-1/2^18/2^18+1 "
             "bytes; k=%d), C (65535/65536/65537/131073-byte common runs; k=%d) x {sha1, sha256} x %d write configurations "
-            "(write_pack deltify x window; write_pack_objects deltify x level {-1,0,1,9} with idx v1/v2/v3 from the returned "
+            "(write_pack deltify x window; write_pack_objects deltify x level {-1,0,1,9} (thorough: every level -1..9 for <=2 objects of A) with idx v1/v2/v3 from the returned "
             "entries and from PackData.create_index; deltify_pack_objects(window) + write_pack_data in the selected order; "
             "DiskObjectStore.add_objects level x index version).  W.ofs: %d filler sizes sweeping the OFS distance across "
             "127/128, 16511/16512, 2113663/2113664.  W.slice: %d blob sizes x 3 layouts sweeping the deflate length across "
@@ -1795,7 +1882,5 @@ def _ranges(vals):
 
 
 def replay(ctx, obj):
-    import sys
-
     _bind_rust()
-    return replay_generic(sys.modules[__name__], ctx, obj)
+    return replay_generic(_GuardedCases(), ctx, obj)
